@@ -671,6 +671,8 @@ pub async fn process_fully_buffered_changes(
             })?;
 
             bookedw.commit_snapshot(snap);
+            // applied: this is not a partial version anymore
+            bookedw.partials.remove(&version);
 
             Ok::<_, ChangeError>(rows_impacted > 0)
         })
@@ -1018,6 +1020,18 @@ pub async fn process_multiple_changes(
                         });
                     } else {
                         debug!(%actor_id, %version, "still have {gaps_count} gaps in partially buffered seqs: {:?}", seqs.gaps(&full_seqs_range).collect::<Vec<_>>());
+                    }
+                } else {
+                    // these versions are fully known now (applied or cleared): forget whatever
+                    // partial state an earlier chunk left behind, or we keep advertising
+                    // (and requesting) missing sequences of a version we hold
+                    let stale: Vec<CrsqlDbVersion> = booked_write
+                        .partials
+                        .range(versions.clone())
+                        .map(|(v, _)| *v)
+                        .collect();
+                    for v in stale {
+                        booked_write.partials.remove(&v);
                     }
                 }
             }
